@@ -63,6 +63,7 @@ class FakeServer(object):
         self.orig_prompts = dict(ORIG_PROMPT)
         self.hop = None             # (stages, final, password) of the inner host, if this is a jump host
         self.hops = 0
+        self.echo = False           # the remote shell's terminal echoes what is typed at it
         self.advance()
 
     def emit(self, token, text=None):
@@ -138,6 +139,8 @@ class FakeServer(object):
             if self.state == 'termtype' and kind == 'line':
                 kind = 'termtype'
             self.log.append(('cli', kind, line, self.state))
+            if self.echo and self.state == 'shell':
+                self.out += line + '\r\n'
             self.react(kind, line)
 
     def react(self, kind, line):
